@@ -1,10 +1,246 @@
-(* C02 - each aggregating rule reduces exactly its own body's solution set. (under construction) *)
-From Coq Require Import List ZArith.
-From MV Require Import Datalog.Syntax Datalog.Rewrite Datalog.Transform.
+(* C02 - each aggregating rule reduces exactly its own body's solution set.
+
+   Model: Datalog/Rewrite.v (rewrite.Rewrite, name generator), Datalog/Transform.v (evalDo,
+   reducers, do-transforms applied after the stratum's fixpoint) on top of the C01 engine
+   model. Proofs: Datalog/TransformProofs.v, Datalog/RewriteProofs.v.
+
+   How the statements add up to the property. A rule with a do-transform is evaluated as
+   eval_do head d rows (Transform.apply_do), where rows are the stored facts of the rule's
+   single body atom. do_groups_exact / do_groups_facts / do_empty: for EVERY row list the
+   emitted facts are exactly one per distinct key among the rows, each with every
+   let-statement's reducer applied to exactly the rows carrying that key, nothing for no
+   rows. For a multi-premise rule the body atom is the internal relation created by
+   Rewrite; rewrite_shape says its defining clause has the rule's own body, and
+   isolated_relation says that a relation defined by one clause only, absent from the
+   incoming store, whose body reads completed relations, holds after the stratum's fixpoint
+   exactly that clause's body solutions over the completed lower strata - for every program,
+   store, rule order and fuel. Its hypotheses are what "generated names are pairwise distinct
+   and no user predicate ends in __tmp" buys; fresh_names_distinct_partial proves the
+   distinctness for one head symbol, fresh_names_refuted / name_collision_refuted (finding
+   F2b) show it fails across head symbols, rewrite_F2_refuted shows the pre-fix counter
+   violated it for two rules of one head, rewrite_F2c_refuted shows the pre-fix single-atom
+   test fed non-solutions into the groups. *)
+From Coq Require Import List ZArith Bool.
+From MV Require Import Datalog.Syntax Datalog.Interp Datalog.Solve Datalog.SolveProofs Datalog.SemiNaive
+     Datalog.SemiNaiveProofs Datalog.Lfp Datalog.Rewrite Datalog.Transform
+     Datalog.TransformProofs Datalog.RewriteProofs.
+From MV Require Run.C02.
 Import ListNotations.
 Open Scope Z_scope.
 
-Theorem fresh_names_refuted :
-  fresh_id (id_of_name [114; 49]) 1 = fresh_id (id_of_name [114]) 11.
+(* ---- grouping and reducing *)
+
+(* evalDo = one fact per distinct key, computed from exactly the rows with that key; an
+   unbound key variable is an error of both sides *)
+Theorem do_groups_exact : forall (head : atom) (d : dotrans) (rows : list subst),
+  eval_do head d rows =
+  match map_opt (key_of (d_keys d)) rows with
+  | None => None
+  | Some ks =>
+      map_opt (fun k => eval_group head d
+                          (k, filter (fun row => match key_of (d_keys d) row with
+                                                 | Some k' => key_eqb k k'
+                                                 | None => false
+                                                 end) rows))
+              (nodup_keys ks)
+  end.
+Proof. exact eval_do_spec. Qed.
+Print Assumptions do_groups_exact.
+
+(* membership form: a fact is emitted iff it is the head computed for the key of some row,
+   from the rows of that key - and for nothing else *)
+Theorem do_groups_facts : forall (head : atom) (d : dotrans) (rows : list subst) (fs : list fact),
+  eval_do head d rows = Some fs ->
+  forall f, In f fs <->
+    exists row k, In row rows /\ key_of (d_keys d) row = Some k /\
+      eval_group head d (k, filter (fun row' => match key_of (d_keys d) row' with
+                                                | Some k' => key_eqb k k'
+                                                | None => false
+                                                end) rows) = Some f.
+Proof. exact eval_do_facts. Qed.
+Print Assumptions do_groups_facts.
+
+(* the rows of a group are exactly the rows with its key *)
+Theorem group_rows_exact_key : forall (keys : list Z) (k : list const) (rows : list subst) (row : subst),
+  In row (rows_with_key keys k rows) <-> In row rows /\ key_of keys row = Some k.
+Proof. exact rows_with_key_in. Qed.
+Print Assumptions group_rows_exact_key.
+
+(* an empty body yields no fact *)
+Theorem do_empty : forall (head : atom) (d : dotrans), eval_do head d [] = Some [].
+Proof. exact eval_do_nil. Qed.
+Print Assumptions do_empty.
+
+Example do_groups_example :
+  eval_do (mkAtom 7 [TVar 1; TVar 3; TVar 4])
+          (mkDo [1] [DReduce 3 RSum [TVar 2]; DReduce 4 RCount []])
+          [[(1, CNum 1); (2, CNum 10)]; [(1, CNum 2); (2, CNum 5)]; [(1, CNum 1); (2, CNum 7)]]
+  = Some [(7, [CNum 1; CNum 17; CNum 2]); (7, [CNum 2; CNum 5; CNum 1])].
 Proof. vm_compute. reflexivity. Qed.
+
+(* ---- the internal relation of a split rule *)
+
+(* every plain clause of the rewritten stratum is an original plain clause or the internal
+   clause of a split aggregating rule: head = the generated name over the chosen column
+   order, body = that rule's own body, no transform *)
+Theorem rewrite_shape : forall (ord : list Z -> list Z) (rs : list rule) (c : clause),
+  In c (plain_clauses (rewrite ord rs)) ->
+  (exists r, In r rs /\ r_do r = None /\ c = r_clause r) \/
+  (exists r m d, In r rs /\ r_do r = Some d /\ 0 <= m /\
+     single_atom_premise true (r_wild r) (cbody (r_clause r)) = false /\
+     c = mkClause (mkAtom (fresh_id (r_head r) (m + 1))
+                          (map TVar (ord (body_cols (r_wild r) (cbody (r_clause r))))))
+                  (cbody (r_clause r)) []).
+Proof. intros ord rs c H. exact (rewrite_go_in_tmp true true ord rs 0 c H). Qed.
+Print Assumptions rewrite_shape.
+
+(* a relation that exactly one clause c of the stratum defines, that the incoming store
+   does not mention and whose body reads only relations the stratum does not derive, holds
+   after the stratum's evaluation exactly c's body solutions over the incoming (completed)
+   store: for all rules, delta-rule lists, stores, fuel. *)
+Theorem isolated_relation :
+  forall (R : list clause) (drules : list (clause * nat)) (St0 : list fact) (c : clause)
+         (fuel : nat) (Res : list fact),
+  neg_ok R -> drules_ok R drules -> In c R ->
+  (forall c', In c' R -> apred (chead c') = apred (chead c) -> c' = c) ->
+  (forall f, In f St0 -> fst f <> apred (chead c)) ->
+  (forall q, In q (pos_preds (cbody c)) -> ~ In q (heads R)) ->
+  eval_stratum fuel R drules St0 = Ok Res ->
+  forall f, fst f = apred (chead c) ->
+    (In f Res <-> exists t, sat (inset St0) (fun _ => St0) 0 (cbody c) [] t /\ emit_head c t = Some f).
+Proof.
+  intros R drules St0 c fuel Res Hn Hd Hc Hu Hf Hl He f Hp.
+  exact (isolated_relation_exact R drules St0 Hn Hd c Hc Hu Hf Hl fuel Res He f Hp).
+Qed.
+Print Assumptions isolated_relation.
+
+(* rewrite_isolated_partial = isolated_relation read on R := plain_clauses (rewrite ord rs)
+   and c := the internal clause of a split rule (rewrite_shape). Full statement of the plan:
+     NoDup (fresh_ids true true 0 rs) -> (forall r, In r rs -> is_internal (r_head r) = false) ->
+     (forall f, In f St0 -> is_internal (fst f) = false) -> ... ->
+     In f Res <-> f is a body solution of rule i      for the internal relation of rule i.
+   Not finished: deriving the uniqueness hypothesis (the 4th above) from NoDup of the
+   generated names needs the position of every generated name in the rewritten list; the
+   theorem below takes uniqueness of the internal name as its hypothesis instead. *)
+Theorem rewrite_isolated_partial :
+  forall (ord : list Z -> list Z) (rs : list rule) (drules : list (clause * nat)) (St0 : list fact)
+         (r : rule) (m : Z) (fuel : nat) (Res : list fact),
+  let R := plain_clauses (rewrite ord rs) in
+  let c := mkClause (mkAtom (fresh_id (r_head r) (m + 1))
+                            (map TVar (ord (body_cols (r_wild r) (cbody (r_clause r))))))
+                    (cbody (r_clause r)) [] in
+  neg_ok R -> drules_ok R drules -> In c R ->
+  (forall c', In c' R -> apred (chead c') = fresh_id (r_head r) (m + 1) -> c' = c) ->
+  (forall f, In f St0 -> fst f <> fresh_id (r_head r) (m + 1)) ->
+  (forall q, In q (pos_preds (cbody (r_clause r))) -> ~ In q (heads R)) ->
+  eval_stratum fuel R drules St0 = Ok Res ->
+  forall f, fst f = fresh_id (r_head r) (m + 1) ->
+    (In f Res <-> exists t, sat (inset St0) (fun _ => St0) 0 (cbody (r_clause r)) [] t /\ emit_head c t = Some f).
+Proof.
+  intros ord rs drules St0 r m fuel Res R c Hn Hd Hc Hu Hf Hl He f Hp.
+  exact (isolated_relation_exact R drules St0 Hn Hd c Hc Hu Hf Hl fuel Res He f Hp).
+Qed.
+Print Assumptions rewrite_isolated_partial.
+
+(* ---- names *)
+
+(* names generated for one head symbol are pairwise distinct (full plan: pairwise distinct
+   over ALL head symbols of a unit - false, see fresh_names_refuted) *)
+Theorem fresh_names_distinct_partial : forall (sym n m : Z),
+  1 <= sym -> 0 <= n -> 0 <= m -> n <> m -> fresh_id sym n <> fresh_id sym m.
+Proof. intros sym n m Hs Hn Hm Hne He. apply Hne. exact (fresh_id_counter_inj sym n m Hs Hn Hm He). Qed.
+Print Assumptions fresh_names_distinct_partial.
+
+Example fresh_names_distinct_example : fresh_id (id_of_name [114]) 1 <> fresh_id (id_of_name [114]) 2.
+Proof. vm_compute. discriminate. Qed.
+
+(* a generated name ends in __tmp *)
+Theorem fresh_names_internal : forall (sym n : Z), 1 <= sym -> is_internal (fresh_id sym n) = true.
+Proof. exact fresh_id_internal. Qed.
+Print Assumptions fresh_names_internal.
+
+(* finding F2b: "r1" + 1 and "r" + 11 are the same name r11__tmp *)
+Theorem fresh_names_refuted :
+  id_of_name [114; 49] <> id_of_name [114] /\
+  fresh_id (id_of_name [114; 49]) 1 = fresh_id (id_of_name [114]) 11.
+Proof. split; [vm_compute; discriminate | vm_compute; reflexivity]. Qed.
 Print Assumptions fresh_names_refuted.
+
+(* ---- witnesses (predicates: p0 = 94256, p1 = 94257, p2 = 94258, p3 = 94259, p11 = 24129841) *)
+Definition sum_rule (h e : Z) : rule :=
+  mkRule (mkClause (mkAtom h [TVar 1; TVar 3])
+                   [PAtom (mkAtom e [TVar 1; TVar 2]); PCmp Lt (TVar 2) (TConst (CNum 100))] [])
+         (Some (mkDo [1] [DReduce 3 RSum [TVar 2]])) [].
+
+(* p2(K,S) :- p0(K,V), V < 100 |> sum.   p2(K,S) :- p1(K,V), V < 100 |> sum. *)
+Definition w_f2 : Run.C02.case :=
+  Run.C02.mkCase [sum_rule 94258 94256; sum_rule 94258 94257] [[94258]] []
+    [(94256, [CNum 1; CNum 1]); (94256, [CNum 1; CNum 3]);
+     (94257, [CNum 1; CNum 5]); (94257, [CNum 1; CNum 50]); (94257, [CNum 1; CNum 15])]
+    20 [] Run.C02.OLimit.
+
+(* before fix F2 both rules of one head got the internal name p21__tmp, the groups of each
+   rule held the solutions of both (p2(1,74)), and the observer - the independent fold over
+   each rule's own body - rejects that result; with the advancing counter the names differ
+   and the result is p2(1,4), p2(1,70) *)
+Theorem rewrite_F2_refuted :
+  fresh_ids false true 0 (Run.C02.c_prog w_f2) = [fresh_id 94258 1; fresh_id 94258 1] /\
+  (exists M, Run.C02.run_model_F2 w_f2 = Ok M /\ In (94258, [CNum 1; CNum 74]) M /\
+             Run.C02.observe w_f2 (Run.C02.visible M) = Some false) /\
+  (exists M, Run.C02.run_model w_f2 = Ok M /\ In (94258, [CNum 1; CNum 4]) M /\ In (94258, [CNum 1; CNum 70]) M /\
+             Run.C02.observe w_f2 (Run.C02.visible M) = Some true).
+Proof.
+  split; [vm_compute; reflexivity|]. split.
+  - eexists. split; [vm_compute; reflexivity|]. split; [vm_compute; tauto | vm_compute; reflexivity].
+  - eexists. split; [vm_compute; reflexivity|]. split; [vm_compute; tauto|].
+    split; [vm_compute; tauto | vm_compute; reflexivity].
+Qed.
+Print Assumptions rewrite_F2_refuted.
+
+(* p1(K,C) :- p0(K,K) |> count. Before fix F2c the rule was not split and every p0 fact
+   became a row: p1(3,1) for the non-solution p0(3,1), p1(1,2) counting p0(1,2) *)
+Definition w_f2c : Run.C02.case :=
+  Run.C02.mkCase
+    [mkRule (mkClause (mkAtom 94257 [TVar 1; TVar 2]) [PAtom (mkAtom 94256 [TVar 1; TVar 1])] [])
+            (Some (mkDo [1] [DReduce 2 RCount []])) []]
+    [[94257]] []
+    [(94256, [CNum 1; CNum 1]); (94256, [CNum 1; CNum 2]); (94256, [CNum 2; CNum 2]); (94256, [CNum 3; CNum 1])]
+    20 [] Run.C02.OLimit.
+
+Theorem rewrite_F2c_refuted :
+  (exists M, Run.C02.run_model_F2c w_f2c = Ok M /\ In (94257, [CNum 3; CNum 1]) M /\
+             Run.C02.observe w_f2c (Run.C02.visible M) = Some false) /\
+  (exists M, Run.C02.run_model w_f2c = Ok M /\ ~ In (94257, [CNum 3; CNum 1]) M /\
+             Run.C02.observe w_f2c (Run.C02.visible M) = Some true).
+Proof.
+  split.
+  - eexists. split; [vm_compute; reflexivity|]. split; [vm_compute; tauto | vm_compute; reflexivity].
+  - eexists. split; [vm_compute; reflexivity|]. split; [|vm_compute; reflexivity].
+    vm_compute. intros H. repeat (destruct H as [H|H]; [discriminate H|]). exact H.
+Qed.
+Print Assumptions rewrite_F2c_refuted.
+
+(* finding F2b on the model of the CURRENT code: p11 has one split rule (counter 1), p1 has
+   eleven (counters 1..11); the eleventh shares the name p111__tmp with p11's. The
+   hypotheses of isolated_relation fail (the incoming store of the second stratum already
+   holds facts of that name) and the observer rejects the model's own result. *)
+Definition cnt_rule (i : Z) : rule :=
+  mkRule (mkClause (mkAtom 94257 [TVar 1; TVar 3])
+                   [PAtom (mkAtom 94258 [TVar 1; TVar 2]); PCmp Gt (TVar 2) (TConst (CNum i))] [])
+         (Some (mkDo [1] [DReduce 3 RCount []])) [].
+
+Definition w_f2b : Run.C02.case :=
+  Run.C02.mkCase
+    (mkRule (mkClause (mkAtom 24129841 [TVar 1; TVar 3])
+                      [PAtom (mkAtom 94258 [TVar 1; TVar 2]); PAtom (mkAtom 94259 [TVar 1])] [])
+            (Some (mkDo [1] [DReduce 3 RSum [TVar 2]])) []
+     :: map cnt_rule [0; 1; 2; 3; 4; 5; 6; 7; 8; 9; 10])
+    [[94257]; [24129841]] []
+    [(94258, [CNum 1; CNum 20]); (94258, [CNum 1; CNum 30]); (94258, [CNum 2; CNum 5]); (94259, [CNum 2])]
+    20 [] Run.C02.OLimit.
+
+Theorem name_collision_refuted :
+  fresh_id 94257 11 = fresh_id 24129841 1 /\
+  Run.C02.self_check w_f2b = 2.
+Proof. split; vm_compute; reflexivity. Qed.
+Print Assumptions name_collision_refuted.
